@@ -5,6 +5,7 @@ package simctx
 import (
 	"context"
 	"errors"
+	"runtime"
 	"time"
 )
 
@@ -21,6 +22,11 @@ type Ctx struct {
 	// context.Cause(c) then returns that cause while Err() is context.Canceled
 	inner  context.Context
 	cancel context.CancelCauseFunc
+	// RecordSites: remember the code site (caller's program counters) of every
+	// poll, so that an enumeration that has to sample still covers every poll
+	// SITE of the library at its first and last occurrences.
+	RecordSites bool
+	Sites       []uintptr // parallel to poll index
 }
 
 // ErrAppCause is the cause recorded by the cause-carrying flavour.
@@ -66,6 +72,15 @@ func (c *Ctx) Done() <-chan struct{} {
 func (c *Ctx) Err() error {
 	i := c.Polls
 	c.Polls++
+	if c.RecordSites {
+		var pcs [2]uintptr
+		n := runtime.Callers(2, pcs[:])
+		var h uintptr = 1469598103934665603 & ^uintptr(0)
+		for _, pc := range pcs[:n] {
+			h = (h ^ pc) * 1099511628211
+		}
+		c.Sites = append(c.Sites, h)
+	}
 	if c.FireAt >= 0 && i >= c.FireAt {
 		if c.fired && i > c.FireAt {
 			c.After++
